@@ -365,6 +365,60 @@ def small_perm_cases():
                                     "variants": []}
 
 
+# --------------------------------------------------------------------------
+# RangeTree (typhon/trees.py): the 1-d sibling with the same shuffle scheme
+# --------------------------------------------------------------------------
+def check_rangetree(case, ctx):
+    from typhon.trees import RangeTree
+    build = np.array(case["build"], dtype=float)
+    query = np.array(case["query"], dtype=float)
+    r = float(case["r"])
+    diff = np.abs(build[:, None].astype(S.LD) - query[None, :].astype(S.LD))
+    band = S.LD(1e-9) * (S.LD(1) + S.LD(r))
+    must = diff < r - band
+    may = diff <= r + band
+    kwargs = {}
+    if case["tree"] is not None:
+        kwargs["tree_class"] = case["tree"]
+    sh = case["shuffle"]
+    if sh["mode"] == "off":
+        kwargs["shuffle"] = False
+    with PinnedShuffle(sh):
+        tree = RangeTree(build.copy(), **kwargs)
+        pairs = tree.query_radius(query.copy(), r)
+
+    def describe():
+        return "build=%r query=%r r=%r tree=%r shuffle=%r" % (
+            case["build"], case["query"], r, case["tree"], sh)
+    compare(ctx, "/rangetree", case, pairs, None, diff, must, may, "chord",
+            describe)
+    ctx.label("rangetree", "shuffle-" + sh["mode"])
+    n_exp = int(np.count_nonzero(must))
+    if n_exp == 0:
+        ctx.label("rangetree-empty")
+    if n_exp and n_exp < must.size:
+        ctx.nontrivial = True
+
+
+@st.composite
+def rangetree_cases(draw):
+    val = st.one_of(st.integers(-12, 12).map(lambda k: k / 4.0),
+                    st.floats(-1e3, 1e3, allow_nan=False))
+    build = draw(st.lists(val, min_size=1, max_size=30))
+    query = draw(st.lists(val, min_size=1, max_size=12))
+    r = draw(st.one_of(st.integers(0, 12).map(lambda k: k / 4.0),
+                       st.floats(0.0, 50.0, allow_nan=False)))
+    mode = draw(st.sampled_from(["perm", "perm", "perm", "seed", "off"]))
+    if mode == "perm":
+        sh = {"mode": "perm", "perm": draw(permutations_of(len(build)))}
+    elif mode == "seed":
+        sh = {"mode": "seed", "seed": draw(st.integers(0, 2 ** 32 - 1))}
+    else:
+        sh = {"mode": "off"}
+    return {"build": build, "query": query, "r": r, "shuffle": sh,
+            "tree": draw(st.sampled_from([None, "Ball", "KD"]))}
+
+
 def suites(tier):
     return [
         Suite("query", check_query, strategy=query_cases(tier),
@@ -373,4 +427,6 @@ def suites(tier):
               examples={"quick": 45, "thorough": 1000}),
         Suite("small-perms-exhaustive", check_query, cases=small_perm_cases,
               exhaustive=True),
+        Suite("rangetree", check_rangetree, strategy=rangetree_cases(),
+              examples={"quick": 100, "thorough": 2000}),
     ]
